@@ -13,13 +13,14 @@ from vlib.workload import case_rng, per_shard
 ID = "C16"
 LEVEL = "exploration"
 RULE = ("operation sequences over {insert fresh key, lookup ([] and get(default) alternating)} with keys from the closed family "
-        "3 base classes x {itself, NewType, TypeAliasType, string-valued alias, Final[...], ForwardRef to it, ForwardRef with the same name in another module}: all sequences up to "
-        "the tier's length over one base (exhaustive), random sequences up to length 40 over all 18 keys; after every sequence a "
+        "3 base classes x {itself, NewType, TypeAliasType, string-valued alias, Final[...], ForwardRef to it, ForwardRef with the same name in another module, ForwardRef with the same name and no module}: all sequences up to "
+        "the tier's length over one base (exhaustive), random sequences up to length 40 over all 24 keys; after every sequence a "
         "full probe of all keys ([] / get / in for stored keys) is compared with the write-once reference model; one evaluation = "
         "one sequence; distinct = distinct sequence; non-trivial = contains at least one insert and one lookup")
 ASSUMPTIONS = [
     "the model is the statement read literally: value under the key itself, else under its peeled form (NewType/alias value/string alias -> ForwardRef to its body in the alias's module/Final), else under the forward reference naming the looked-up key; ForwardRef keys never fall through",
     "'in' is only compared for stored keys (memoised alias keys are deliberately not observed)",
+    "a module-less ForwardRef is a key of its own; whether a class is found under a stored module-less reference of its name is not judged (either answer accepted), absent reference keys are always absent",
 ]
 EXHAUSTIVE = {"quick": True, "thorough": True}
 PLAN = {"quick": dict(maxlen=4, random=60000), "thorough": dict(maxlen=6, random=600000)}
@@ -37,6 +38,7 @@ S0 = typing.TypeAliasType("S0", "B0"); S1 = typing.TypeAliasType("S1", "B1"); S2
 F0 = typing.Final[B0]; F1 = typing.Final[B1]; F2 = typing.Final[B2]
 R0 = typing.ForwardRef("B0", module=__name__); R1 = typing.ForwardRef("B1", module=__name__); R2 = typing.ForwardRef("B2", module=__name__)
 X0 = typing.ForwardRef("B0", module="some_other_module"); X1 = typing.ForwardRef("B1", module="some_other_module"); X2 = typing.ForwardRef("B2", module="some_other_module")
+U0 = typing.ForwardRef("B0"); U1 = typing.ForwardRef("B1"); U2 = typing.ForwardRef("B2")
 """
 MODNAME = "vctx_family"
 _MISSING = object()
@@ -46,7 +48,7 @@ def family():
     if MODNAME not in sys.modules:
         mod = types.ModuleType(MODNAME)
         sys.modules[MODNAME] = mod
-        exec(compile(SRC, f"/verif/out/generated/{MODNAME}.py", "exec"), mod.__dict__)
+        exec(compile(SRC, f"/verif/out/generated/{MODNAME}.py", "exec", dont_inherit=True), mod.__dict__)
     mod = sys.modules[MODNAME]
     keys = {}
     for b in range(3):
@@ -60,6 +62,7 @@ def family():
             "F": (getattr(mod, f"F{b}"), B, None),
             "R": (fr, None, None),                     # a ForwardRef key never falls through
             "X": (getattr(mod, f"X{b}"), None, None),  # same name, ANOTHER module: names nothing in this family
+            "U": (getattr(mod, f"U{b}"), None, None),  # same name, NO module: a key of its own; whether it "names" B is left open (see AMBIGUOUS)
         }
     return keys
 
@@ -94,6 +97,11 @@ def key_ids(keys):
     return table
 
 
+# A module-less reference does not say whose "B0" it means. The statement does not settle whether the class is found under it, so a
+# class lookup that the model misses while the module-less reference is stored is not compared (counted, never judged). Reference
+# KEYS (R, X, U) stay strict: an absent reference key is absent, whatever other references are stored.
+AMBIGUOUS = {f"B{b}": f"U{b}" for b in range(3)}
+
 VALUES = [0, None, "", 1, "v", (), 2.5, False, "w", 7, [], {}]
 
 
@@ -109,6 +117,9 @@ def run_sequence(sh, table, seq, probe_keys):
         nonlocal ok
         key, _, _ = table[kid]
         how, want = model.lookup(kid, table[kid])
+        if how == "miss" and AMBIGUOUS.get(kid) in model.d:
+            sh.count("unjudged_moduleless_reference")
+            return
         sentinel = object()
         if use_get:
             try:
